@@ -208,7 +208,7 @@ func c11Gen(tier string, seed int64) []fw.Case {
 	}
 	// many handshakes at the same time, each with a key of its own: every answer carries the digest of ITS key
 	for i := 0; i < tierPick(tier, 4, 40); i++ {
-		d := c11Desc{Kind: "concurrent", Seed: rng.U64(), N: 24 * 300}
+		d := c11Desc{Kind: "concurrent", Seed: rng.U64(), N: 24 * 3000}
 		cases = append(cases, fw.Case{Name: fmt.Sprintf("concurrent/%d", i), Desc: d, Run: func(r *fw.R) { c11Concurrent(r, d) }})
 	}
 	return cases
@@ -224,7 +224,7 @@ func c11Concurrent(r *fw.R, d c11Desc) {
 		go func(g int) {
 			defer wg.Done()
 			rng := fw.NewRand(d.Seed + uint64(g)*7919)
-			for i := 0; i < 300; i++ {
+			for i := 0; i < 3000; i++ {
 				key := base64.StdEncoding.EncodeToString(rng.Bytes(16))
 				req := attach.UpgradeRequest()
 				req.Header.Set("Sec-WebSocket-Key", key)
@@ -246,10 +246,10 @@ func c11Concurrent(r *fw.R, d c11Desc) {
 		}(g)
 	}
 	wg.Wait()
-	r.Count("concurrent_handshakes_checked", 24*300)
+	r.Count("concurrent_handshakes_checked", 24*3000)
 	r.Key("concurrent/24-goroutines")
 	if n := bad.Load(); n > 0 {
-		r.Violate("C11/concurrent-handshake-answer-wrong", fmt.Sprintf("%d of %d handshakes running at the same time were not answered with 101 and the digest of their own key; first: %v", n, 24*300, first.Load()), "")
+		r.Violate("C11/concurrent-handshake-answer-wrong", fmt.Sprintf("%d of %d handshakes running at the same time were not answered with 101 and the digest of their own key; first: %v", n, 24*3000, first.Load()), "")
 	}
 }
 
